@@ -39,6 +39,14 @@ argument (none / several codecs and spellings) x defaults, with EQUAL or differe
 pickle / deepcopy / cook / munge; namespaces hold text, numbers and byte strings in several codecs inserted plain / html-quoted /
 inside in, with, let, try, if-else; expected value from a plain-Python reference of the piecing-together rule (text + bytes -> bytes
 decoded with the encoding the template was constructed with, Latin-1 for templates without one), plus a template constructed now.
+(g) exception families (exception_family_check): histories of renders / pickle / deepcopy / cook on one template whose dtml-try tags
+(nested, several except clauses naming classes and base classes, default clause, else) meet exceptions of many classes, among them
+DIFFERENT classes with the SAME __name__ and other bases, classes two levels below a named base, classes with two bases; objects of
+same-named classes in dtml-with; expected from a plain-Python reference of the documented handler rule + a template constructed now.
+(h) other interpreter runs (process_check): templates (var tags with every subset of 1..4 modifiers in HTML / %(..)s / entity syntax,
+dtml-in sorted on several keys, dtml-let, try, if) pickled here and rendered in child interpreters with different string hash seeds
+(restored pickle, new template, round trip there); expected from a plain-Python reference of the modifiers applied in the order of
+the documented table where there is one, else all runs must agree with this process.
 Correspondence: the Lean state machine (op "tmpl") vs the real object after every operation (the calling-convention histories
 included: the convention is part of the model's opaque input): raw, globals, _vars, presence
 of compiled data; the model's (program, defaults, variables, inputs) of each call determine the same output.
@@ -1622,6 +1630,405 @@ def enc_build(pkg, s, pool):
     return cls(text, dm, encoding=s['encoding'], **dk)
 
 
+# ---------------------------------------------------------------------------------------------------------------------------
+# (g) exception families: dtml-try picks the handler from the CLASS of the exception (its name and the names of all its base
+# classes), so a history must render one template object with exceptions of many classes -- among them different classes that
+# share a __name__ but have other bases (as the builtin TimeoutError(OSError) and multiprocessing.TimeoutError(ProcessError)
+# do), classes two levels below a named base, classes with two bases.  Same for objects: instances of different classes with
+# one __name__ in dtml-with / dtml-var.  Expected text: plain-Python reference of the documented rule ("the first except block
+# to match the type of the error raised is rendered; no name matches all"; else block when nothing was raised; error_type is the
+# name of the exception caught) + a template constructed now.
+
+XF_NAMES = ['Error', 'TimeoutError', 'Unauthorized', 'NotFound', 'KeyError', 'Mid']
+XF_BUILTINS = [LookupError, KeyError, IndexError, ArithmeticError, ZeroDivisionError, OSError, TimeoutError, ValueError,
+               Exception, NameError, RuntimeError]
+XF_CALLS = ['f', 'g', 'h']
+
+
+def xf_family(r):
+    """exception classes of one case: builtins, and made-up classes whose names repeat with different bases"""
+    import multiprocessing
+    pool = list(XF_BUILTINS) + [multiprocessing.TimeoutError]
+    made = []
+    for _ in range(r.randint(4, 8)):
+        name = r.choice(XF_NAMES[:3] if r.random() < 0.7 else XF_NAMES)
+        k = r.random()
+        if k < 0.55:
+            bases = (r.choice(pool),)
+        elif k < 0.8:
+            bases = (type(r.choice(['Mid', 'Base', name]), (r.choice(pool),), {}),)
+        elif k < 0.9 and made:
+            bases = (r.choice(made),)
+        else:
+            b1, b2 = r.choice(XF_BUILTINS), r.choice(XF_BUILTINS)
+            bases = (b1,) if issubclass(b1, b2) else (b2,) if issubclass(b2, b1) else (b1, b2)
+        try:
+            made.append(type(name, bases, {}))
+        except TypeError:
+            pass
+    return pool[:6] + r.sample(pool[6:], 3) + made
+
+
+def xf_describe(c):
+    return '%s(%s)' % (c.__name__, ','.join(xf_describe(b) if b.__module__ != 'builtins' else b.__name__ for b in c.__bases__))
+
+
+def xf_ancestor_names(c):
+    out = set()
+    for b in c.__bases__:
+        out.add(b.__name__)
+        out |= xf_ancestor_names(b)
+    return out
+
+
+def xf_gen_parts(r, fam, depth, in_handler=False):
+    parts = []
+    for _ in range(r.randint(1, 3 if depth else 2)):
+        k = r.random()
+        if k < 0.25:
+            parts.append(('text', r.choice(['a ', '; ', '-', '|'])))
+        elif k < 0.35 and in_handler:
+            parts.append(('etype',))
+        elif k < 0.45:
+            parts.append(('ob', r.choice(['o1', 'o2'])))
+        else:
+            names = sorted({n for c in fam for n in xf_ancestor_names(c) | {c.__name__}} - {'object', 'BaseException'})
+            handlers = []
+            for _h in range(r.randint(0, 3)):
+                handlers.append((r.sample(names, r.randint(1, 2)), xf_gen_parts(r, fam, depth - 1, True) if depth else [('etype',)]))
+            if r.random() < 0.4 or not handlers:
+                handlers.append(([], [('text', 'dflt:'), ('etype',)]) if r.random() < 0.5 or not handlers else
+                                (['Exception'], [('text', 'exc')]))
+            els = [('text', 'else')] if r.random() < 0.4 else None
+            parts.append(('try', r.choice(XF_CALLS), handlers, els))
+    return parts
+
+
+def xf_src(parts):
+    out = []
+    for p in parts:
+        if p[0] == 'text':
+            out.append(p[1])
+        elif p[0] == 'etype':
+            out.append('<dtml-var error_type>')
+        elif p[0] == 'ob':
+            out.append('<dtml-with %s>(<dtml-var tag>)</dtml-with>' % p[1])
+        else:
+            out.append('<dtml-try>[<dtml-var %s>]' % p[1])
+            for names, body in p[2]:
+                out.append('<dtml-except %s>' % ' '.join(names) if names else '<dtml-except>')
+                out.append(xf_src(body))
+            if p[3] is not None:
+                out.append('<dtml-else>' + xf_src(p[3]))
+            out.append('</dtml-try>')
+    return ''.join(out)
+
+
+class XfRaised(Exception):
+    pass
+
+
+def xf_ref(parts, ns, etype=None):
+    out = []
+    for p in parts:
+        if p[0] == 'text':
+            out.append(p[1])
+        elif p[0] == 'etype':
+            out.append(etype)
+        elif p[0] == 'ob':
+            out.append('(%s)' % ns[p[1]].tag)
+        else:
+            what = ns[p[1]]
+            if not isinstance(what, type):
+                out.append('[%s]' % what)
+                if p[3] is not None:
+                    out.append(xf_ref(p[3], ns, etype))
+                continue
+            anc = xf_ancestor_names(what) | {what.__name__}
+            for names, body in p[2]:
+                if not names or anc & set(names):
+                    out.append(xf_ref(body, ns, what.__name__))
+                    break
+            else:
+                raise XfRaised(what)
+    return ''.join(out)
+
+
+def xf_render(t, ns):
+    def raiser(c):
+        def f():
+            raise c('boom')
+        return f
+    kw = {k: (raiser(v) if isinstance(v, type) else v) for k, v in ns.items()}
+    try:
+        return ('ok', t(**kw))
+    except Exception as e:      # noqa
+        return ('raise', type(e))
+
+
+def xf_show(o):
+    return [o[0], o[1] if o[0] == 'ok' else xf_describe(o[1])]
+
+
+def exception_family_check(res, r, n, maxlen=8):
+    classes = template_classes()
+    for j in range(n):
+        fam = xf_family(r)
+        obcls = [type('Thing', (object,), {'tag': 'T%d' % i}) for i in range(3)]
+        parts = xf_gen_parts(r, fam, 1)
+        if not any(p[0] == 'try' for p in parts):
+            parts.append(('try', 'f', [([r.choice(['LookupError', 'OSError', 'Error'])], [('etype',)])], None))
+        src = xf_src(parts)
+        cls_idx = j % 2
+        cls = classes[cls_idx]
+        try:
+            t = cls(src)
+        except Exception as e:  # noqa
+            res.harness_errors.append('exception families: %r does not compile: %r' % (src, e))
+            return
+        res.evaluations += 1
+        shown, fails = [], []
+        # a few classes are used again and again within a history so that names recur
+        focus = r.sample(fam, min(len(fam), r.randint(3, 6)))
+        for step in range(r.randint(3, maxlen)):
+            k = r.random()
+            if k < 0.12:
+                t = pickle.loads(pickle.dumps(t))
+                shown.append('pickle round trip')
+            elif k < 0.2:
+                t = copy.deepcopy(t)
+                shown.append('deepcopy')
+            elif k < 0.26:
+                t.cook()
+                shown.append('cook')
+            else:
+                ns = {c: (r.choice(focus) if r.random() < 0.8 else 'v%d' % r.randrange(3)) for c in XF_CALLS}
+                ns['o1'], ns['o2'] = r.choice(obcls)(), r.choice(obcls)()
+                shown.append({'render': {c: (xf_describe(v) if isinstance(v, type) else v) for c, v in ns.items() if c in XF_CALLS},
+                              'o1.tag': ns['o1'].tag, 'o2.tag': ns['o2'].tag})
+                try:
+                    want = ('ok', xf_ref(parts, ns))
+                except XfRaised as e:
+                    want = ('raise', e.args[0])
+                got = xf_render(t, ns)
+                again = xf_render(t, ns)
+                new = xf_render(cls(src), ns)
+                res.count('exception families: outcome=' + ('rendered' if want[0] == 'ok' else 'exception propagates'))
+                for label, v in (('the template of the history', got), ('the same call repeated', again),
+                                 ('a template constructed now', new)):
+                    if v != want:
+                        fails.append('step %d: %s gives %r, expected (handler = first except block naming the class or one of its '
+                                     'base classes) %r' % (len(shown) - 1, label, xf_show(v), xf_show(want)))
+                if fails:
+                    break
+        res.nt(('xfam', cls_idx, src))
+        res.count('history=exception families (classes sharing a name, other bases)')
+        for w in fails[:2]:
+            res.oracle_fail.append({'case': {'class': CLASS_NAMES[cls_idx], 'source': src, 'history': shown,
+                                             'exception classes': [xf_describe(c) for c in fam]}, 'what': w})
+
+
+# ---------------------------------------------------------------------------------------------------------------------------
+# (h) other interpreter runs: "the same template with equal inputs always gives the same result" also holds in another process,
+# and a pickle is normally restored in another process.  Templates (HTML and %(..)s syntax: var tags with every subset of 1..4
+# modifiers incl. the entity form, dtml-in sorted on several keys, dtml-let with several names, try/except on builtin exceptions,
+# if/else) are rendered here, pickled (cooked or not), and rendered in child interpreters started with different string hash
+# seeds: restored pickle, twice; a template constructed there; a pickle round trip there.  Every result must equal the expected
+# value: a plain-Python reference where there is one (modifiers act in the order of the documented table: html_quote, url_quote,
+# url_quote_plus, newline_to_br, lower, upper, capitalize, spacify, thousands_commas, sql_quote), the parent's result otherwise.
+
+PX_MODS = ['html_quote', 'url_quote', 'url_quote_plus', 'url_unquote', 'url_unquote_plus', 'newline_to_br', 'lower', 'upper',
+           'capitalize', 'spacify', 'thousands_commas', 'sql_quote']
+PX_NOREF = ('url_unquote', 'url_unquote_plus')
+PX_INPUTS = [
+    {'x': 'mIxEd_case', 't': 'a<b\nc&d', 'u': 'a_b c/d', 'n': '1234567.25', 'q': "it's \"Q\"_x\r\nY", 'k': 1,
+     'rows': [{'a': 2, 'b': 'x', 'c': 'B'}, {'a': 1, 'b': 'y', 'c': 'a'}, {'a': 2, 'b': 'a', 'c': 'b'}, {'a': 1, 'b': 'b', 'c': 'A'}]},
+    {'x': 'under_Score and <Tag>', 't': 'Two\nlines_here', 'u': 'q=1&r=a b_c', 'n': '98765', 'q': "o'Neil_1000000", 'k': 0,
+     'rows': [{'a': 3, 'b': 'k', 'c': 'z'}, {'a': 3, 'b': 'c', 'c': 'Z'}, {'a': 0, 'b': 'k', 'c': 'm'}], 'f': {'__raise__': 'KeyError'}},
+    {'x': 'ALL_UPPER 1000000', 't': '<i>\n</i>', 'u': 'Ab/Cd_ef+g', 'n': '1000', 'q': '', 'k': 2, 'rows': [],
+     'f': {'__raise__': 'ZeroDivisionError'}},
+]
+
+
+def px_ref_mod(name, v):
+    import urllib.parse
+    if name == 'html_quote':
+        for a, b in (('&', '&amp;'), ('<', '&lt;'), ('>', '&gt;'), ('"', '&quot;'), ("'", '&#x27;')):
+            v = v.replace(a, b)
+        return v
+    if name == 'url_quote':
+        return urllib.parse.quote(v)
+    if name == 'url_quote_plus':
+        return urllib.parse.quote_plus(v)
+    if name == 'newline_to_br':
+        return v.replace('\r', '').replace('\n', '<br />\n')
+    if name == 'lower':
+        return v.lower()
+    if name == 'upper':
+        return v.upper()
+    if name == 'capitalize':
+        return v[:1].upper() + v[1:].lower()
+    if name == 'spacify':
+        return v.replace('_', ' ')
+    if name == 'thousands_commas':
+        head, dot, tail = v.partition('.')
+        m = re.search(r'[0-9]+$', head)         # the digits that end the part before the first dot get commas
+        if m:
+            d = m.group(0)
+            groups = []
+            while len(d) > 3:
+                groups.insert(0, d[-3:])
+                d = d[:-3]
+            head = head[:m.start()] + ','.join([d] + groups)
+        return head + dot + tail
+    if name == 'sql_quote':
+        for c in '\x00\x1a\r':
+            v = v.replace(c, '')
+        return v.replace("'", "''")
+    raise KeyError(name)
+
+
+def px_gen(r):
+    """one template: (class name, source, reference(inputs) or None)"""
+    string_syntax = r.random() < 0.3
+    pieces, refs = [], []
+    for _ in range(r.randint(1, 3)):
+        k = r.random()
+        name = r.choice(['x', 't', 'u', 'n', 'q'])
+        if k < 0.6 or string_syntax:
+            mods = r.sample(PX_MODS if r.random() < 0.25 else [m for m in PX_MODS if m not in PX_NOREF], r.choice([1, 2, 2, 2, 3, 3, 4]))
+            pieces.append(('%%(%s %s)s' if string_syntax else '<dtml-var %s %s>') % (name, ' '.join(mods)))
+            if any(m in PX_NOREF for m in mods):
+                refs.append(None)
+            else:
+                order = [m for m in PX_MODS if m in mods]
+                refs.append(lambda inp, name=name, order=order: _px_apply(inp[name], order))
+        elif k < 0.7:
+            mods = r.sample([m for m in PX_MODS if m != 'html_quote'], r.choice([1, 2, 3]))
+            pieces.append('&dtml.%s-%s;' % ('.'.join(mods), name))
+            refs.append(None)
+        elif k < 0.8:
+            keys = r.sample(['a', 'b', 'c'], r.choice([2, 3]))
+            pieces.append('<dtml-in rows mapping sort="%s"%s><dtml-var a><dtml-var b upper lower><dtml-var c>,</dtml-in>'
+                          % (','.join(keys), r.choice(['', ' reverse'])))
+            refs.append(None)
+        elif k < 0.9:
+            pieces.append('<dtml-let a=x b="a + u" c="b.upper()" x=t><dtml-var c spacify lower>/<dtml-var x upper newline_to_br></dtml-let>')
+            refs.append(lambda inp: _px_apply((inp['x'] + inp['u']).upper(), ['lower', 'spacify']) + '/'
+                        + _px_apply(inp['t'], ['newline_to_br', 'upper']))
+        else:
+            pieces.append('<dtml-try><dtml-var f><dtml-except LookupError ArithmeticError>E:<dtml-var error_type lower capitalize>'
+                          '<dtml-else>fine</dtml-try><dtml-if k>K<dtml-else>nok</dtml-if>')
+            refs.append(None)
+        if r.random() < 0.5:
+            sep = r.choice([' | ', '; ', ' - '])
+            pieces.append(sep)
+            refs.append(lambda inp, sep=sep: sep)
+    src = ''.join(pieces)
+    ref = None
+    if all(f is not None for f in refs):
+        def ref(inp, refs=tuple(refs)):
+            return ''.join(f(inp) for f in refs)
+    return ('String' if string_syntax else 'HTML'), src, ref
+
+
+def _px_apply(v, order):
+    v = str(v)
+    for m in order:
+        v = px_ref_mod(m, v)
+    return v
+
+
+def px_outcome(t, inp):
+    import builtins
+    kw = {}
+    for k, v in inp.items():
+        if isinstance(v, dict) and '__raise__' in v:
+            def f(c=getattr(builtins, v['__raise__'])):
+                raise c('boom')
+            v = f
+        kw[k] = v
+    kw.setdefault('f', 'nothing raised')
+    try:
+        return ['ok', t(**kw)]
+    except Exception as e:      # noqa
+        return ['raise', type(e).__name__]
+
+
+def px_child():
+    """runs in the child interpreter: job on stdin, results on stdout"""
+    import binascii
+    import DocumentTemplate
+    job = json.load(sys.stdin)
+    restored = pickle.loads(binascii.unhexlify(job['blob']))
+    out = []
+    for (kind, src), t in zip(job['templates'], restored):
+        fresh = getattr(DocumentTemplate, kind)(src)
+        row = {}
+        for label, ob in (('the pickle of the parent process, restored', t), ('the same, rendered again', t),
+                          ('a template constructed in this process', fresh), ('the same, rendered again ', fresh),
+                          ('a pickle round trip within this process', pickle.loads(pickle.dumps(t)))):
+            row[label] = [px_outcome(ob, inp) for inp in job['inputs']]
+        out.append(row)
+    json.dump({'hashseed': os.environ.get('PYTHONHASHSEED'), 'rows': out}, sys.stdout)
+
+
+def process_check(res, r, n, seeds):
+    import binascii
+    import subprocess
+    import DocumentTemplate
+    gens = [px_gen(r) for _ in range(n)]
+    templates = [getattr(DocumentTemplate, kind)(src) for kind, src, _ in gens]
+    here = []
+    for i, t in enumerate(templates):
+        if i % 3:       # two of three are compiled and rendered before they are pickled
+            here.append([px_outcome(t, inp) for inp in PX_INPUTS])
+        else:
+            here.append([px_outcome(getattr(DocumentTemplate, gens[i][0])(gens[i][1]), inp) for inp in PX_INPUTS])
+    expected = []
+    for (kind, src, ref), mine in zip(gens, here):
+        exp = []
+        for inp, m in zip(PX_INPUTS, mine):
+            exp.append(['ok', ref(inp)] if ref is not None else m)
+        expected.append(exp)
+    job = json.dumps({'blob': binascii.hexlify(pickle.dumps(templates)).decode('ascii'),
+                      'templates': [[kind, src] for kind, src, _ in gens], 'inputs': PX_INPUTS})
+    runs = {'this process': [{'rendered here': h} for h in here]}
+    code = 'import sys; sys.path.insert(0, %r); import common; import props.c17 as m; m.px_child()' % os.path.dirname(
+        os.path.dirname(os.path.abspath(__file__)))
+    procs = []
+    for s in seeds:
+        env = dict(os.environ, PYTHONHASHSEED=str(s))
+        procs.append((s, subprocess.Popen([sys.executable, '-c', code], env=env, stdin=subprocess.PIPE, stdout=subprocess.PIPE,
+                                          stderr=subprocess.PIPE, text=True)))
+    for s, p in procs:
+        try:
+            so, se = p.communicate(job, timeout=300)
+        except subprocess.TimeoutExpired:
+            p.kill()
+            res.harness_errors.append('other interpreter runs: child with hash seed %s timed out' % s)
+            continue
+        if p.returncode:
+            res.harness_errors.append('other interpreter runs: child with hash seed %s failed: %s' % (s, se[-1500:]))
+            continue
+        runs['another interpreter run, PYTHONHASHSEED=%s' % s] = json.loads(so)['rows']
+    for i, (kind, src, ref) in enumerate(gens):
+        res.evaluations += 1
+        res.nt(('proc', kind, src))
+        res.count('history=pickled here, rendered in %d other interpreter runs' % len(seeds))
+        res.count('other runs: expected value from ' + ('the plain-Python reference' if ref else 'agreement of all runs'))
+        bad = None
+        for where, rows in runs.items():
+            for label, outs in rows[i].items():
+                for inp, o, e in zip(PX_INPUTS, outs, expected[i]):
+                    if o != e and bad is None:
+                        bad = ('%s(%r) with %r: %s / %s gives %r, expected %r (%s)'
+                               % (kind, src, {k: v for k, v in inp.items() if k != 'rows'}, where, label.strip(), o, e,
+                                  'reference: modifiers in the order of the documented table' if ref else 'the result in this process'))
+        if bad:
+            res.oracle_fail.append({'case': {'class': kind, 'source': src, 'runs': sorted(runs)}, 'what': bad})
+
+
 def show_case(init, ops, cls_idx):
     return {'class': CLASS_NAMES[cls_idx], 'init': [SOURCES[init[0]], init[1], init[2]],
             'ops': show_ops(ops),
@@ -1629,7 +2036,8 @@ def show_case(init, ops, cls_idx):
                       "'-name' (left out of the base mapping); code = index into props.c17.VALUES[name], or the integer itself"}
 
 
-def check(res, r, n, maxlen, have_driver, streaks=0, idioms=0, calls=0, files=0, overlaps=0, tier='quick', encs=0):
+def check(res, r, n, maxlen, have_driver, streaks=0, idioms=0, calls=0, files=0, overlaps=0, tier='quick', encs=0, xfams=0, procs=0,
+          proc_seeds=()):
     hist = []
     for j in range(n):
         init = [r.randrange(len(SOURCES)), gen_dict(r), gen_dict(r)]
@@ -1691,6 +2099,10 @@ def check(res, r, n, maxlen, have_driver, streaks=0, idioms=0, calls=0, files=0,
         overlap_check(res, common.rng('C17-overlap'), overlaps, tier)
     if encs:
         encoding_check(res, common.rng('C17-encodings'), encs)
+    if xfams:
+        exception_family_check(res, common.rng('C17-exception-families'), xfams, maxlen)
+    if procs:
+        process_check(res, common.rng('C17-processes'), procs, proc_seeds)
     file_template_check(res)
 
 
@@ -1715,13 +2127,19 @@ def run(res, tier, have_driver):
                 'the same object in another thread at sampled lines (one thread stopped after k lines): result = new template before or after the '
                 'operation; 2..4 templates of every kind x encoding x equal or different sources side by side over one history with '
                 'byte strings of several codecs in the namespace, against a plain-Python reference of the text/bytes joining rule; '
+                'histories on one object over exception classes that share a __name__ but differ in their bases (try / except naming '
+                'base classes, nested, default, else) against a reference of the handler rule; templates with 1..4 var modifiers / '
+                'multi-key sorts / let / try pickled here and rendered in child interpreters with other string hash seeds against a '
+                'reference of the modifier table order or the result here; '
                 'non-trivial = distinct (kind, class, operation sequence), idiom templates, sub-template programs, '
                 '(source, operation) pairs of overlapping cases'
                 % len(SOURCES))
     if tier == 'quick':
-        check(res, r, 700, 8, have_driver, streaks=8, idioms=300, calls=200, files=150, overlaps=60, encs=500)
+        check(res, r, 700, 8, have_driver, streaks=8, idioms=300, calls=200, files=150, overlaps=60, encs=500, xfams=400, procs=150,
+              proc_seeds=(1, 2, 3, 4, 1234))
     else:
-        check(res, r, 8000, 14, have_driver, streaks=60, idioms=3000, calls=3000, files=3000, overlaps=150, tier='thorough', encs=8000)
+        check(res, r, 8000, 14, have_driver, streaks=60, idioms=3000, calls=3000, files=3000, overlaps=150, tier='thorough', encs=8000,
+              xfams=6000, procs=1500, proc_seeds=(1, 2, 3, 4, 5, 6, 7, 11, 42, 1234, 99999, 'random'))
     res.assumptions += ['compiling and rendering a compiled program are parameters of the state-machine model (Engine.parse / '
                         'Engine.exec); that rendering a compiled program is a function of (program, defaults, variables, inputs) '
                         'only — i.e. that compiled tags keep no per-render state that a later render reads — is what the oracle '
@@ -1736,7 +2154,8 @@ def run(res, tier, have_driver):
 def search_more(res, tier):
     r = common.rng('C17-more')
     res2 = common.Result('C17')
-    check(res2, r, 2500, 12, False, streaks=20, idioms=1000, calls=800, files=600, overlaps=40, encs=1500)
+    check(res2, r, 2500, 12, False, streaks=20, idioms=1000, calls=800, files=600, overlaps=40, encs=1500, xfams=1500, procs=300,
+          proc_seeds=(5, 6, 7, 11, 42))
     return res2.oracle_fail
 
 
